@@ -56,16 +56,38 @@ def extract(repo=REPO, cfg="dev", no_cache=False):
     os.makedirs(WORK, exist_ok=True)
     key = tree_hash(repo)
     out = os.path.join(WORK, "facts", "%s-%s" % (key, cfg))
-    lock = open(os.path.join(WORK, "extract.lock"), "w")
+    os.makedirs(os.path.join(WORK, "facts"), exist_ok=True)
+    # one extraction per (tree, configuration) at a time …
+    lock = open(out + ".lock", "w")
     fcntl.flock(lock, fcntl.LOCK_EX)
+    slot_lock = None
     try:
         if not no_cache and os.path.exists(os.path.join(out, "OK")):
             return out, True
         if os.path.exists(out):
             shutil.rmtree(out)
         os.makedirs(out)
+        # … and one cargo run per target directory at a time: slot 0 is the usual directory, further slots (used by the
+        # self-test tools, FPV_EXTRACT_SLOTS > 1, to analyse many scratch copies in parallel) are warm copies of it
+        nslots = max(1, int(os.environ.get("FPV_EXTRACT_SLOTS", "1")))
+        tgt = None
+        while tgt is None:
+            for k_ in range(nslots):
+                lk = open(os.path.join(WORK, "extract_%s_%d.lock" % (cfg, k_)), "w")
+                try:
+                    fcntl.flock(lk, fcntl.LOCK_EX | (fcntl.LOCK_NB if nslots > 1 else 0))
+                except OSError:
+                    lk.close()
+                    continue
+                slot_lock = lk
+                base = os.path.join(WORK, "target_%s" % cfg)
+                tgt = base + ("_s%d" % k_ if k_ else "")
+                if k_ and not os.path.exists(tgt) and os.path.exists(base):
+                    subprocess.run(["cp", "-a", base, tgt], check=False)
+                break
+            else:
+                time.sleep(0.3)
         nonce = "%s-%d" % (key, int(time.time() * 1000))
-        tgt = os.path.join(WORK, "target_%s" % cfg)
         env = dict(os.environ)
         env["FPFACTS_NONCE"] = nonce
         t0 = time.time()
@@ -88,12 +110,15 @@ def extract(repo=REPO, cfg="dev", no_cache=False):
             fh.write("%s %.1fs\n" % (nonce, time.time() - t0))
         # prune old caches (keep the 6 most recent and whatever was extracted in the last 45 minutes: parallel runs over
         # many scratch copies would otherwise evict each other's facts between two checks of the same copy)
-        alld = sorted(glob.glob(os.path.join(WORK, "facts", "*")), key=os.path.getmtime)
+        alld = sorted((d for d in glob.glob(os.path.join(WORK, "facts", "*")) if os.path.isdir(d)), key=os.path.getmtime)
         for d in alld[:-6]:
             if time.time() - os.path.getmtime(d) > 45 * 60:
                 shutil.rmtree(d, ignore_errors=True)
         return out, False
     finally:
+        if slot_lock is not None:
+            fcntl.flock(slot_lock, fcntl.LOCK_UN)
+            slot_lock.close()
         fcntl.flock(lock, fcntl.LOCK_UN)
         lock.close()
 
